@@ -351,9 +351,16 @@ def gen_history_kept(rng):
         k += 1
         if (d["version"], d["annotation"]) in {(x["version"], x["annotation"]) for x in regs}:
             continue
+        hslots = []
+        for hdr in [header_for(d)] + [h for _sl, h in pending[:1]]:       # the scheme about to exist, and one that exists already
+            ops.append({"k": "hold_header", "slot": slot, "lines": hdr})
+            hslots.append((slot, hdr))
+            slot += 1
         ops.append(reg_op(rng, [d]))
         regs.append(d)
         extras[d["annotation"]] = d
+        for sl, hdr in hslots:
+            ops.append({"k": "use_held_header", "slot": sl, "lines": hdr})
         for sl, hdr in pending:
             ops.append({"k": "write_kept", "slot": sl, "header": hdr})
     return ops, regs
@@ -367,6 +374,11 @@ def analyse(out, ops, regs, steps, where):
         if "harness_exc" in s or "crash" in s:
             out.failures.append(dict(where, what="harness failure", kind="harness", got=s))
             return
+        if o["k"] == "use_held_header":
+            if s.get("exc") or s["held"] != s["fresh"]:
+                out.failures.append(dict(where, what="a header object made before a registration does not resolve / validate / write like a header parsed now from the same lines",
+                                         kind="held-header", header=o["lines"], got=s.get("exc") or {"held": s["held"], "fresh": s["fresh"]}))
+                return
         if o["k"] == "register":
             known = {a for (_v, a) in registered} | set(BUILTIN_ANNOTATIONS)
             anns = [d["annotation"] for d in o["defs"]]
@@ -434,7 +446,7 @@ def analyse(out, ops, regs, steps, where):
                     return
 
 
-NON_MODEL = ("roundtrip", "keep", "write_kept")     # operations on live objects / files: implementation + oracle only
+NON_MODEL = ("roundtrip", "keep", "write_kept", "hold_header", "use_held_header")     # operations on live objects / files: implementation + oracle only
 
 
 def model_request(h):
